@@ -34,7 +34,7 @@ def table(tier):
             cfg["meta"] = meta
         rows.append(("table", cfg))
     for g in RESERVED + ["MustGetX", "GetXInContext", "MustGetXInContext", "Must", "InContext", "getX", "Get_X", "X",
-                         "Mustang", "Mustx", "MustgetX", "Must_x", "Must1", "MustX", "mustGetX", "MUSTGetX", "xInContext", "InContextX", "GetXIncontext", "GetXInContext2", "_InContext"]:
+                         "_getEnv", "_", "_paramTodo", "_x", "_concatenateChunks", "_getEnvInt", "_callProvider", "Mustang", "Mustx", "MustgetX", "Must_x", "Must1", "MustX", "mustGetX", "MUSTGetX", "xInContext", "InContextX", "GetXIncontext", "GetXInContext2", "_InContext"]:
         rows.append(("collision-reserved", {"services": {"a": {"value": "Value", "getter": g}}}))
     rows.append(("collision-equal", {"services": {"a": {"value": "Value", "getter": "GetSame"}, "b": {"value": "Value", "getter": "GetSame"}}}))
     rows.append(("collision-equal-todo", {"services": {"a": {"value": "Value", "getter": "GetSame"}, "b": {"todo": True, "getter": "GetSame"}}}))
